@@ -14,6 +14,7 @@ import (
 	golog "log"
 	"net"
 	"os"
+	"runtime"
 	"sort"
 	"strings"
 	"sync"
@@ -486,6 +487,7 @@ func TestVerifC09(t *testing.T) {
 		}
 		if strings.Contains(string(b), "pipeline case=") {
 			c09Pipeline(t, out)
+			c09StartupCancel(out)
 		}
 		return
 	}
@@ -546,6 +548,7 @@ func TestVerifC09(t *testing.T) {
 		out.Note(fmt.Sprintf("scenario %s: %d schedules, exhaustive=%v", sc.name, count, exhaustive))
 	}
 	c09Pipeline(t, out)
+	c09StartupCancel(out)
 }
 
 // runC09Random runs one uniformly random schedule (chosen step by step among runnable threads).
@@ -686,6 +689,52 @@ func c09Pipeline(t *testing.T, out *vlib.Out) {
 	}
 }
 
+// c09StartupCancel: a stop request that arrives while the workers are still being launched. The
+// pipeline must still return only after every worker is gone (it closes their channel afterwards).
+func c09StartupCancel(out *vlib.Out) {
+	for _, procs := range []int{1, 0} {
+		old := runtime.GOMAXPROCS(0)
+		if procs > 0 {
+			runtime.GOMAXPROCS(procs)
+		}
+		rounds := 30
+		for i := 0; i < rounds; i++ {
+			lv := &c09Live{live: map[string]bool{}}
+			rm := c09Manager(lv)
+			rm.IngestWorkerCount = 200
+			ctx, cancel := context.WithCancel(context.Background())
+			cancel()
+			in := make(chan interface{})
+			var wg sync.WaitGroup
+			wg.Add(1)
+			before := runtime.NumGoroutine()
+			returned := make(chan struct{})
+			go func() { rm.HandleRegUpdates(ctx, in, &wg); close(returned) }()
+			out.Checked()
+			select {
+			case <-returned:
+			case <-time.After(10 * time.Second):
+				out.OracleFail("C09:shutdown-hangs-during-startup", "HandleRegUpdates did not return 10 s after being started with a cancelled context", "pipeline case=startup-cancel")
+				runtime.GOMAXPROCS(old)
+				return
+			}
+			// every worker must be gone by the time the pipeline has returned
+			deadline := time.Now().Add(3 * time.Second)
+			for runtime.NumGoroutine() > before+2 && time.Now().Before(deadline) {
+				time.Sleep(time.Millisecond)
+				runtime.Gosched()
+			}
+			if n := runtime.NumGoroutine(); n > before+2 {
+				out.OracleFail("C09:workers-outlive-pipeline", fmt.Sprintf("%d goroutines still running 3 s after HandleRegUpdates returned (before: %d)", n, before), "pipeline case=startup-cancel")
+				runtime.GOMAXPROCS(old)
+				return
+			}
+		}
+		runtime.GOMAXPROCS(old)
+		out.Count("pipeline:startup-cancel:ok")
+	}
+}
+
 // ------------------------------------------------------------------------------------------
 // randomised stress under the race detector (run by a separate plan entry with -race)
 
@@ -753,7 +802,32 @@ func TestVerifC09Race(t *testing.T) {
 		wg.Add(1)
 		go c09ReloadLoop(rm, stop, &wg)
 	}
-	wg.Wait()
+	// watchdog: with real concurrency a lock-order or nested-lock mistake shows up as goroutines that
+	// never finish; report it with the goroutine dump instead of running into the test timeout
+	finished := make(chan struct{})
+	go func() { wg.Wait(); close(finished) }()
+	select {
+	case <-finished:
+	case <-time.After(dur + 45*time.Second):
+		out := vlib.Open("C09race")
+		buf := make([]byte, 1<<20)
+		n := runtime.Stack(buf, true)
+		dump := string(buf[:n])
+		short := dump
+		if len(short) > 6000 {
+			short = short[:6000]
+		}
+		blocked := 0
+		for _, g := range strings.Split(dump, "\n\n") {
+			if strings.Contains(g, "sync.(*RWMutex)") {
+				blocked++
+			}
+		}
+		out.OracleFail("C09:deadlock-under-stress", fmt.Sprintf("workers, handlers and sweeper did not finish %v after the stress ended; %d goroutines are blocked in the registry RWMutex", 45*time.Second, blocked),
+			"go test -race -run TestVerifC09Race ./pkg/station/lib/ ; goroutine dump: "+strings.ReplaceAll(short, "\n", " ⏎ "))
+		out.Close()
+		t.Fatalf("deadlock under stress (%d goroutines blocked in RWMutex)", blocked)
+	}
 }
 
 // c09ReloadLoop plays the SIGHUP handler of cmd/application/main.go: parse a new configuration,
